@@ -102,7 +102,7 @@ func parseWith(r *simReader) (out parseOutcome) {
 	select {
 	case out = <-done:
 		return out
-	case <-time.After(3 * time.Second):
+	case <-time.After(time.Second):
 		return parseOutcome{Blocked: true}
 	}
 }
@@ -223,7 +223,7 @@ func ExecStreamCase(c *StreamCase) (*Violation, streamStats) {
 		return mk("panic", "parser panicked: "+out.Panic), st
 	}
 	if out.Blocked {
-		return mk("hang", fmt.Sprintf("ParseReader did not return within 3 s although the reader was not being called: the parser is blocked (input tail %q)", tail(c.Text, 40))), st
+		return mk("hang", fmt.Sprintf("ParseReader did not return within 1 s although the reader was not being called: the parser is blocked (input tail %q)", tail(c.Text, 40))), st
 	}
 	if out.Hung {
 		return mk("hang", fmt.Sprintf("ParseReader kept reading after end of input: more than %d Read calls after the reader reported EOF/error (input tail %q)", postEOFLimit, tail(c.Text, 40))), st
@@ -253,6 +253,7 @@ func tail(s string, n int) string {
 
 func init() {
 	extraProps["C11"] = func(w *Worker, seed uint64, checks int) ([]string, string) {
+		shrinkTime = "12s" // a blocked parse costs a second per attempt
 		if w.Out.Extra["scaling_probes_run"] == 0 {
 			// once per worker process: the allocation-volume scaling probes
 			w.Out.Extra["scaling_probes_run"] = 1
@@ -284,6 +285,9 @@ func init() {
 			}
 		}
 		return rapidRound(seed, checks*4, func(rt *rapid.T) {
+			if w.expired() || w.skipRest {
+				return
+			}
 			rec := newRecorder(rt)
 			c := DrawStreamCase(rec)
 			v, st := ExecStreamCase(c)
@@ -340,6 +344,11 @@ func init() {
 				c.TextHex = hex.EncodeToString([]byte(c.Text))
 				w.best = &replayFile{Property: "C11", Engine: "stream", Draws: append([]int{}, rec.Draws...), Violation: *v, Input: c}
 				w.bestSz = sz
+			}
+			if strings.Contains(v.Msg, "the parser is blocked") {
+				// every further attempt would cost a second and leak a goroutine: report this case
+				// un-minimised (rapid's shrinker sees the remaining attempts pass and stops)
+				w.skipRest = true
 			}
 			rt.Fatalf("%s", v.Class)
 		})
